@@ -136,6 +136,11 @@ inline Built run_recipe(const Recipe& rc) {
   return rc.fam->build(rc.variant, r, true);
 }
 
+// reference images shipped with the repository (<repo>/<relpath>), read with the given reader; read-outs recorded from the
+// pinned tree live in corpus/shipped/<name>.json
+struct Shipped { std::string relpath; std::string name; std::string family; std::function<std::string(const std::string& img, bool stream)> read; };
+inline std::vector<Shipped>& shipped() { static std::vector<Shipped> s; return s; }
+
 inline bool read_file(const std::string& path, std::string& out) {
   std::ifstream f(path, std::ios::binary);
   if (!f) return false;
